@@ -133,7 +133,11 @@ def gen_shapes(ck, thorough):
 
 
 def lib_fields(t):
-    return {'version': bytes(t.version)[::-1], 'segwit': t.witness_type == 'segwit', 'locktime': le(t.locktime, 4),
+    # the version is reported twice (version bytes and version_int): both must be what is serialized
+    ver = bytes(t.version)[::-1]
+    if le(t.version_int % 2 ** 32, 4) != ver:
+        ver = b'VERSION-ATTRIBUTES-DISAGREE'
+    return {'version': ver, 'segwit': t.witness_type == 'segwit', 'locktime': le(t.locktime, 4),
             'ins': [{'txid': bytes(i.prev_txid)[::-1], 'vout': bytes(i.output_n)[::-1], 'script': bytes(i.unlocking_script),
                      'seq': le(i.sequence, 4),
                      # Input.witnesses of a legacy input is internal bookkeeping (signature, key), not a witness
